@@ -211,3 +211,81 @@ package parser
 //@   traverse mark t Type visitedType($)
 //@   traverse mark t Expr visitedExpr($)
 //@   loop 1 invariant [params] forall j int :: 0 <= j && j <= rangeindex && j < len(t.TypeParams) && !isnil(t.TypeParams[j]) ==> visitedType(t.TypeParams[j])
+
+// ---- statements and declarations end with a semicolon (C11) ------------------------------------------
+//
+// Every statement / declaration form that WGSL terminates with `;` is accepted
+// only after the parser has asked for that semicolon (expectSemicolon reports
+// `expected ;` when it is missing): no success path skips the request.
+//
+//@ func (*Parser).breakStmt
+//@   mode bv
+//@   tags C11
+//@   ghostcall expectSemicolon semicolonAsked p
+//@   ensures [semicolon-required] isnil(result1) ==> semicolonAsked(p)
+//
+//@ func (*Parser).continueStmt
+//@   mode bv
+//@   tags C11
+//@   ghostcall expectSemicolon semicolonAsked p
+//@   ensures [semicolon-required] isnil(result1) ==> semicolonAsked(p)
+//
+//@ func (*Parser).returnStmt
+//@   mode bv
+//@   tags C11
+//@   ghostcall expectSemicolon semicolonAsked p
+//@   ensures [semicolon-required] isnil(result1) ==> semicolonAsked(p)
+//
+//@ func (*Parser).discardStmt
+//@   mode bv
+//@   tags C11
+//@   ghostcall expectSemicolon semicolonAsked p
+//@   ensures [semicolon-required] isnil(result1) ==> semicolonAsked(p)
+//
+//@ func (*Parser).letStmt
+//@   mode bv
+//@   tags C11
+//@   ghostcall expectSemicolon semicolonAsked p
+//@   ensures [semicolon-required] isnil(result1) ==> semicolonAsked(p)
+//
+//@ func (*Parser).letDecl
+//@   mode bv
+//@   tags C11
+//@   ghostcall expectSemicolon semicolonAsked p
+//@   ensures [semicolon-required] isnil(result1) ==> semicolonAsked(p)
+//
+//@ func (*Parser).constDecl
+//@   mode bv
+//@   tags C11
+//@   ghostcall expectSemicolon semicolonAsked p
+//@   ensures [semicolon-required] isnil(result1) ==> semicolonAsked(p)
+//
+//@ func (*Parser).constAssertDecl
+//@   mode bv
+//@   tags C11
+//@   ghostcall expectSemicolon semicolonAsked p
+//@   ensures [semicolon-required] isnil(result1) ==> semicolonAsked(p)
+//
+//@ func (*Parser).aliasDecl
+//@   mode bv
+//@   tags C11
+//@   ghostcall expectSemicolon semicolonAsked p
+//@   ensures [semicolon-required] isnil(result1) ==> semicolonAsked(p)
+//
+//@ func (*Parser).exprOrAssignStmt
+//@   mode bv
+//@   tags C11
+//@   ghostcall expectSemicolon semicolonAsked p
+//@   ensures [semicolon-required] isnil(result1) ==> semicolonAsked(p)
+//
+//@ func (*Parser).varDecl
+//@   mode bv
+//@   tags C11
+//@   ghostcall expectSemicolon semicolonAsked p
+//@   ensures [semicolon-required] isnil(result1) ==> semicolonAsked(p)
+//
+//@ func (*Parser).overrideDecl
+//@   mode bv
+//@   tags C11
+//@   ghostcall expectSemicolon semicolonAsked p
+//@   ensures [semicolon-required] isnil(result1) ==> semicolonAsked(p)
